@@ -181,6 +181,44 @@ def check(run, decls, text, feats_sig=None, history_rng=None):
         run.sample({"schema": text, "reflection_without_meta": got, "encoded_bytes": len(data)})
 
 
+def split_reflection(run, i, decls):
+    """The schema split into imported modules (struct in one file, its binding possibly in another):
+    the reflection must list the same structs / enums / bindings / services as the declarations."""
+    import shutil
+    from . import c20
+
+    counter = [0]
+    tree = c20.build_tree(run.rng("modtree", i), decls, "main.fcp", 0, counter)
+    if not counter[0]:
+        return
+    root = env.scratch("c12mod")
+    try:
+        files = c20.write_tree(root, tree)
+        case = {"files": files, "description": decls}
+        try:
+            res, lg = PC.parse_file(os.path.join(root, "main.fcp"))
+        except BaseException as e:
+            run.violation("%s: %s (schema split into modules)" % (type(e).__name__, str(e)[:200]), case)
+            return
+    finally:
+        shutil.rmtree(root, ignore_errors=True)
+    if res.is_err():
+        run.violation("schema split into modules rejected: %s" % repr(res.err())[:300], case)
+        return
+    try:
+        rec = RR.strip_meta(res.unwrap().reflection())
+    except Exception as e:
+        run.violation("reflection() of a schema split into modules raised %s: %s" % (type(e).__name__, e), case)
+        return
+    exp = RR.expected(decls)
+    for key in ("structs", "enums", "impls", "services"):
+        if c20.multiset(rec.get(key, [])) != c20.multiset(exp[key]):
+            case["reflection_part"] = rec.get(key)
+            run.violation("reflection of a schema split into modules differs from the declarations in '%s' (%d entries, declared %d)" % (key, len(rec.get(key, [])), len(exp[key])), case)
+            return
+    run.count("split_schema_reflections")
+
+
 def cli_encode(run, decls, text, k):
     """The documented path: `fcp encode <reflection schema> <schema> <out>` must write exactly the
     bytes serde.encode produces in-process (observed through the real command line)."""
@@ -237,12 +275,14 @@ def run(run):
         check(run, decls, S.print_schema(decls), ",".join(sorted(feats)) + ("|after-use" if i % 3 == 0 else ""), run.rng("history", i) if i % 3 == 0 else None)
         if i < run.pick(4, 40):
             cli_encode(run, decls, S.print_schema(decls), i)
+        if i % 4 == 1:
+            split_reflection(run, i, decls)
     reach.stop()
     run.extra["reach"] = {k: v for k, v in reach.summary(40).items() if "reflection" in k}
 
 
 def conclude(run):
-    run.require("cli_encode_runs", "reflections_after_other_uses", "reflections", "records_faithful", "records_encoded", "records_round_tripped", "metas_checked",
+    run.require("cli_encode_runs", "split_schema_reflections", "reflections_after_other_uses", "reflections", "records_faithful", "records_encoded", "records_round_tripped", "metas_checked",
                 "feature/impl:signal-block", "feature/param:range", "feature/param:unit", "feature/decl:service", "feature/impl:extension-field")
     feats = {k[8:]: v for k, v in run.counters.items() if k.startswith("feature/")}
     for k in [k for k in run.counters if k.startswith("feature/")]:
